@@ -80,11 +80,30 @@ Definition angdiff_p (p d : T) : T := pymod (d + p) (two O * p) - p.
 Definition angdiff1_m (a : T) : T := angdiff_p (pi_f O) a.
 Definition angdiff2_m (a b : T) : T := angdiff_p (pi_f O) (a - b).
 
-(* twist.SMTwist.unit (Twist3.unit):  Twist3(base.unitvec(self.S))  -- unitvec of the WHOLE 6-vector *)
-Definition twist3_unit_m (thr : T) (S : V6 T) : option (V6 T) :=
-  let n := norm6 S in if ltb O thr n then Some (vdiv6 S n) else None.
+(* twist.SMTwist.unit (Twist3.unit):  Twist3(base.unittwist(self.S));  Twist2.unit:  Twist2(base.unittwist2(self.S))
+   -- since the fix ca82070 these ARE unittwist_m / unittwist2_m (instantiated as m_twist3_unit / m_twist2_unit in the
+   generated file); there is no separate model. *)
+
+(* unitvec on a 2-vector (used by trnorm2) *)
+Definition unitvec2_m (thr : T) (v : V2 T) : option (V2 T) :=
+  let n := norm2 v in if ltb O thr n then Some (vdiv2 v n) else None.
+
+(* transforms2d.trnorm2 (added by the fix 7bb8ca6):
+     a = base.unitvec(T[:2, 1]);  R = np.array([[a[1], a[0]], [-a[0], a[1]]]);  3x3: rt2tr(R, T[:2, 2])
+   None = a[1] raises TypeError because unitvec returned None *)
+Definition trnorm22_m (thr : T) (R : M22 T) : option (M22 T) :=
+  let '((_, r01), (_, r11)) := R in
+  match unitvec2_m thr (r01, r11) with
+  | Some (a0, a1) => Some ((a1, a0), (neg O a0, a1))
+  | None => None
+  end.
+Definition trnorm23_m (thr : T) (A : M33 T) : option (M33 T) :=
+  match trnorm22_m thr (t2r2 A) with
+  | Some R => Some (rt2tr2 O R (transl2 A))
+  | None => None
+  end.
 End Norm.
 
 #[export] Hint Unfold vdiv2 vdiv3 vdiv4 vdiv6 norm2 norm4 norm6 tw_v tw_w unitvec_m unitvec_norm_m qunit_m trnorm33_m trnorm44_m
   twist_theta_m unittwist_m unittwist_norm_m twist2_theta_m unittwist2_m unittwist2_norm_m pymod angdiff_p angdiff1_m
-  angdiff2_m twist3_unit_m : smlin.
+  angdiff2_m unitvec2_m trnorm22_m trnorm23_m : smlin.
